@@ -6,6 +6,12 @@ Binding A: TLC-exported exact mixtures (ratios, traces, availability) through
            TaurexChemistry(...).initialize_chemistry; exact profile vectors through the Gas classes.
 Binding B: every built-in gas profile for every layer count 2..120 (clauses validated by TLC),
            exact profile re-evaluation on logspace grids, random chemistries re-evaluated by TLC; canaries.
+Settings:  spec/MC_ChemistrySettings.tla -- ONE long-lived chemistry, settings written through the public
+           fitting parameters ('<gas>_<main gas>' ratios with up to four fill gases, every gas's own parameters)
+           between evaluations; TLC exports write/eval behaviours with the exact mixture after every evaluation.
+Binding C: spec/Functional.tla walks (harness/history.py, harness/fx_chemhistory.py): one long-lived gas of every
+           built-in profile type / one TaurexChemistry re-initialised after a change of a fitting parameter, the
+           layer count, the pressure grid, the temperature profile; every evaluation must equal a fresh object's.
 """
 import math
 import random
@@ -214,6 +220,130 @@ def run_mix_vectors(ctx, vecs):
             set_available(avail)
             for v in vs:
                 run_mix_vector(ctx, v)
+    finally:
+        clear_available()
+
+
+# ----------------------------------------------------------------------------
+# settings written through the public fitting parameters (spec/MC_ChemistrySettings.tla)
+# ----------------------------------------------------------------------------
+
+SETTING_KINDS = ['constant', 'twopoint', 'twolayer']     # profile types whose parameters can request a constant abundance
+
+
+def settings_gas(kind, name, val):
+    G = gas_classes()
+    if kind == 'constant':
+        return G[kind](name, mix_ratio=val), [name]
+    if kind == 'twopoint':
+        return G[kind](name, mix_ratio_surface=val, mix_ratio_top=val), [name + '_surface', name + '_top']
+    return G[kind](name, mix_ratio_surface=val, mix_ratio_top=val, mix_ratio_P=1e3), [name + '_top', name + '_surface']
+
+
+def run_settings_vector(ctx, v, rng):
+    """One exported write/eval behaviour on ONE long-lived TaurexChemistry.  The constructor receives the start
+    configuration; every later value arrives through the parameter's own public setter."""
+    from taurex.data.profiles.chemistry.taurexchemistry import TaurexChemistry
+    from taurex.exceptions import InvalidModelException
+    from taurex.constants import AMU
+    fills, traces, nl = v['fills'], v['traces'], v['nl']
+    nf = len(fills)
+    req_r = [frac(r) for r in v['start']['ratios']]
+    req_x = [frac(a) for a in v['start']['ab']]
+    kinds = [rng.choice(SETTING_KINDS) for _ in traces]
+    route = rng.choice(['fit', 'item'])
+    ratio = [float(r) for r in req_r]
+    chem = TaurexChemistry(fill_gases=list(fills), ratio=ratio[0] if (nf == 2 and rng.random() < 0.5) else ratio)
+    gases, pnames = [], []
+    for nm, kind, a in zip(traces, kinds, req_x):
+        g, names = settings_gas(kind, nm, float(a))
+        chem.addGas(g)
+        gases.append(g)
+        pnames.append(names)
+    rnames = ['%s_%s' % (f, fills[0]) for f in fills[1:]]
+    vec = dict(v, kind='settings', kinds=kinds, route=route)
+    last = 'start'
+    masses = [indep_mass(g) for g in fills + traces]
+    nev = 0
+
+    def ok(clause, cond, detail=''):
+        return ctx.verdict(clause, bool(cond), cls='settings:nf%d:nt%d:%s:after-%s' % (nf, len(traces), route, last), detail=detail, vector=vec)
+
+    def write(owner, name, val):
+        if route == 'fit':
+            chem.fitting_parameters()[name][3](val)
+        else:
+            owner[name] = val
+
+    def readback():
+        fp = chem.fitting_parameters()
+        got = {n: fp[n][2]() for n in fp}
+        want = {n: float(r) for n, r in zip(rnames, req_r)}
+        for names, a in zip(pnames, req_x):
+            for n in names:
+                want[n] = float(a)
+        bad = [(n, got.get(n), w) for n, w in sorted(want.items()) if got.get(n) != w]
+        return bad
+
+    for e in v['log']:
+        if e['op'] == 'write':
+            val = frac(e['v'])
+            if e['kind'] == 'ratio':
+                last = 'ratio%d' % e['i']
+                req_r[e['i'] - 1] = val
+                write(chem, rnames[e['i'] - 1], float(val))
+            else:
+                last = 'trace:' + kinds[e['i'] - 1]
+                req_x[e['i'] - 1] = val
+                for n in pnames[e['i'] - 1]:
+                    write(gases[e['i'] - 1], n, float(val))
+            bad = readback()
+            ok('setting_reads_back', not bad, 'after writing %s: (parameter, reads, requested) %r' % (last, bad[:2]))
+            continue
+        nev += 1
+        P = np.logspace(5 + nev % 2, 1 - nev % 3, nl)
+        T = np.full(nl, 900.0 + 100.0 * nev)
+        try:
+            chem.initialize_chemistry(nl, T, P, None)
+            raised = False
+        except InvalidModelException:
+            raised = True
+        ok('requested_invalid_iff_exceeds_one', raised == (e['st'] == 'invalid'),
+           'requested traces %s: %s' % ([str(a) for a in req_x], 'rejected' if raised else 'accepted'))
+        if raised or e['st'] == 'invalid':
+            continue
+        mix = np.asarray(chem.mixProfile, dtype=float)
+        exp = [[frac(c) for c in row] for row in e['mix']]
+        if not ok('one_row_per_gas', mix.shape == (len(exp), nl), 'shape %r' % (mix.shape,)):
+            continue
+        ok('non_negative', np.all(np.isfinite(mix)) and np.all(mix >= 0.0), 'min %r' % mix.min())
+        ok('sums_to_one', np.all(np.abs(mix.sum(axis=0) - 1.0) <= 1e-12), 'sums %r' % mix.sum(axis=0))
+        badr = [(fills[f], l, mix[f, l] / mix[0, l], str(req_r[f - 1])) for f in range(1, nf) for l in range(nl)
+                if not close(mix[f, l], float(req_r[f - 1]) * mix[0, l], rel=REL, abs_=1e-15)]
+        ok('requested_fill_ratio_exact', not badr, '(fill gas, layer, ratio to main, requested) %r' % (badr[:2],))
+        bad = [(g, l, mix[g, l], str(exp[g][l])) for g in range(len(exp)) for l in range(nl)
+               if not close(mix[g, l], float(exp[g][l]), rel=REL, abs_=1e-15)]
+        ok('requested_mix_value', not bad, 'first mismatch (gas, layer, got, exact) %r' % (bad[:1],))
+        mu_exp = [float(sum(exp[g][l] * masses[g] for g in range(len(exp)))) * AMU for l in range(nl)]
+        mu = np.asarray(chem.muProfile, dtype=float)
+        ok('requested_mu_weighted_sum', mu.shape == (nl,) and all(close(mu[l], mu_exp[l], rel=REL) for l in range(nl)),
+           'mu %r expected %r' % (mu / AMU, [m / AMU for m in mu_exp]))
+
+
+def run_settings_vectors(ctx, vecs, seed=None):
+    rng = random.Random((ctx.seed if seed is None else seed) * 2654435761 % (2 ** 31) + 5)
+    clear_available()
+    for v in vecs:
+        run_settings_vector(ctx, v, rng)
+
+
+def run_histories(ctx, nwalks):
+    from .. import history, fx_chemhistory as fx
+    scs = fx.scenarios(ctx.tier)
+    set_available(['H2O', 'CO', 'N2', 'TiO'])
+    try:
+        fx.preflight(ctx, scs)
+        return history.run_history(ctx, scs, nwalks), len(scs)
     finally:
         clear_available()
 
@@ -597,10 +727,13 @@ def run(ctx):
     ctx.bounds = dict(tier=ctx.tier,
                       exhaustive_mixture='<=3 fill gases (ratios k/4), <=2-3 trace gases, 1-3 layers, abundances k/8 incl. totals 1 and 9/8, 3 availability sets',
                       exhaustive_profiles='layer counts 2..%d on the decade grid, smoothing windows 0..300%%, constant/two-point/two-layer/array' % (8 if q else 14),
-                      layer_counts='binding B: every n in 2..30%s' % (' + 24 seeded counts of 31..120' if q else ' and 31..120'))
+                      layer_counts='binding B: every n in 2..30%s' % (' + 24 seeded counts of 31..120' if q else ' and 31..120'),
+                      settings='2..4 fill gases (1..3 ratio parameters), 0..2 trace gases, <=%d writes through the fitting parameters with evaluations in between' % (2 if q else 3),
+                      histories='Functional.tla walks (depth 9, 3 settings x 3 values) over 16 gas scenarios and 7 chemistry scenarios')
     ctx.assumptions = ['element weight table (taurex.util.util.mass) is input data; parsing, summation and weighting are re-done independently',
                        'float 10**k and log10 are exact to 1e-12 on the integer decade grid',
-                       'TLC + CommunityModules Json/IOUtils', 'opacity fixtures subclass InterpolatingOpacity only to announce a molecule']
+                       'TLC + CommunityModules Json/IOUtils', 'opacity fixtures subclass InterpolatingOpacity only to announce a molecule',
+                       'history walks: the reference of an evaluation of a long-lived gas / chemistry is a freshly constructed object at the same settings']
     # ---- design level
     for cfg in (('MC_Chemistry_quick.cfg', 'MC_Chemistry_quick3.cfg') if q else ('MC_Chemistry_thorough.cfg', 'MC_Chemistry_thorough3.cfg')):
         ctx.check_spec('exhaustive-' + cfg, 'MC_Chemistry', cfg, need_actions=('Eval',))
@@ -612,6 +745,11 @@ def run(ctx):
     for variant, inv in refute:
         ctx.expect_refuted('refute-' + variant, 'MC_Chemistry', 'RF_Chemistry_%s.cfg' % variant, inv)
     ctx.expect_refuted('refute-twolayer-asbuilt', 'MC_GasProfile', 'RF_GasProfile_asbuilt.cfg', 'OneValuePerLayer')
+    if not q:    # quick: the export run below carries the same invariants over the same behaviours
+        ctx.check_spec('exhaustive-settings', 'MC_ChemistrySettings', 'MC_ChemistrySettings_thorough.cfg',
+                       need_actions=('WriteRatio', 'WriteTrace', 'Eval'))
+    ctx.expect_refuted('refute-late-binding', 'MC_ChemistrySettings', 'RF_ChemistrySettings_late_binding.cfg', 'RequestedRatiosHonoured')
+    ctx.expect_refuted('refute-write-ignored', 'MC_ChemistrySettings', 'RF_ChemistrySettings_write_ignored.cfg', 'RequestedTracesHonoured')
     # ---- binding A
     check_mass_table(ctx)
     res = ctx.check_spec('export-mixtures', 'MC_Chemistry', 'EX_Chemistry_quick.cfg', workers=1)
@@ -630,6 +768,14 @@ def run(ctx):
         vecs = [v for v in vecs if keep(v)]
     run_mix_vectors(ctx, vecs)
     ctx.note('mixture vectors replayed: %d' % len(vecs))
+    res = ctx.check_spec('export-settings', 'MC_ChemistrySettings', 'EX_ChemistrySettings_%s.cfg' % ctx.tier, workers=1,
+                         need_actions=('WriteRatio', 'WriteTrace', 'Eval'))
+    sv = res.tagged('SVEC')
+    if len(sv) < 1000 or not any(v['nfill'] >= 4 and any(e['kind'] == 'ratio' and e['i'] == 1 for e in v['log']) for v in sv):
+        raise Machinery('only %d settings behaviours exported / no write to the first of three ratios' % len(sv))
+    run_settings_vectors(ctx, sv)
+    ctx.traces += len(sv)
+    ctx.note('settings behaviours (write/eval on one long-lived chemistry) replayed: %d' % len(sv))
     res = ctx.check_spec('export-profiles', 'MC_GasProfile', 'EX_GasProfile_%s.cfg' % ctx.tier, workers=1)
     pv = dedupe(res.tagged('VEC'))
     if len(pv) < 500:
@@ -652,13 +798,34 @@ def run(ctx):
     nmix = validate(ctx, mix_recipes(rng, 80 if q else 500, 40 if q else 120), 'mix')
     ctx.note('trace events: %d profile (layer counts %d..%d, %d distinct), %d exact, %d mixtures' %
              (nprof, ns[0], ns[-1], len(ns), nex, nmix))
+    # ---- binding C: long-lived objects (Functional.tla walks)
+    nh, nsc = run_histories(ctx, 8 if q else 40)
+    ctx.note('binding C: %d history walks over %d scenarios (every gas profile type and TaurexChemistry; fitting parameters, '
+             'layer count, pressure grid, temperature)' % (nh, nsc))
 
 
 def replay(ctx, violations):
     quiet()
     for viol in violations:
         v = viol['vector']
-        if v.get('kind') == 'recipe':
+        if v.get('history'):
+            from .. import fx_chemhistory as fx
+            set_available(['H2O', 'CO', 'N2', 'TiO'])
+            try:
+                fx.replay(ctx, viol, ctx.tier)
+            finally:
+                clear_available()
+        elif v.get('kind') == 'settings':
+            class _Fixed:
+                def __init__(self, kinds, route):
+                    self.k, self.route = list(kinds), route
+                def choice(self, seq):
+                    return self.route if 'fit' in seq else self.k.pop(0)
+                def random(self):
+                    return 1.0
+            clear_available()
+            run_settings_vector(ctx, {k: w for k, w in v.items() if k not in ('kind', 'kinds', 'route')}, _Fixed(v['kinds'], v['route']))
+        elif v.get('kind') == 'recipe':
             validate(ctx, [v['recipe']], 'replay', canary=False)
         elif v.get('kind') == 'mix':
             run_mix_vectors(ctx, [v])
